@@ -32,7 +32,7 @@ fn op_get(l: List[u64], a: u64, b: u64) -> u64 { match l.get(a) { Some(x) => x, 
 fn op_contains(l: List[u64], a: u64, b: u64) -> u64 { if l.contains(a * 10) { 1 } else { 0 } }
 fn op_index(l: List[u64], a: u64, b: u64) -> u64 { match l.index(a * 10) { Some(i) => i, None => 7 } }
 fn op_concat(l: List[u64], a: u64, b: u64) -> u64 { l.concat(l).len() }
-fn op_eq(l: List[u64], a: u64, b: u64) -> u64 { if l == l { 1 } else { 0 } }
+fn op_eq(l: List[u64], a: u64, b: u64) -> u64 { let m: List[u64] = List.new(); m.push(a); let r = if l == m { 1 } else { 0 }; if l == l { r + 2 } else { r } }
 fn op_for(l: List[u64], a: u64, b: u64) -> u64 { let n = 0; for x in l { n = n + 1; } n }
 fn op_push(l: List[u64], a: u64, b: u64) -> u64 { l.push(a); 1 }
 fn op_swap(l: List[u64], a: u64, b: u64) -> u64 { l.swap(a, b); 1 }
@@ -44,7 +44,7 @@ fn op_get(l: List[String], a: u64, b: u64) -> u64 { match l.get(a) { Some(x) => 
 fn op_contains(l: List[String], a: u64, b: u64) -> u64 { if l.contains((a * 10).to_string()) { 1 } else { 0 } }
 fn op_index(l: List[String], a: u64, b: u64) -> u64 { match l.index((a * 10).to_string()) { Some(i) => i, None => 7 } }
 fn op_concat(l: List[String], a: u64, b: u64) -> u64 { l.concat(l).len() }
-fn op_eq(l: List[String], a: u64, b: u64) -> u64 { if l == l { 1 } else { 0 } }
+fn op_eq(l: List[String], a: u64, b: u64) -> u64 { let m: List[String] = List.new(); m.push("x"); let r = if l == m { 1 } else { 0 }; if l == l { r + 2 } else { r } }
 fn op_len(l: List[String], a: u64, b: u64) -> u64 { l.len() }
 fn op_push(l: List[String], a: u64, b: u64) -> u64 { l.push(a.to_string()); 1 }
 fn op_swap(l: List[String], a: u64, b: u64) -> u64 { l.swap(a, b); 1 }
@@ -104,7 +104,7 @@ fn case(builtin: &'static str, elem: &str, ops: &[&str], holder: bool, len: u64,
 /// class representatives; thread interleavings are the machine's).
 pub fn cases(thorough: bool) -> Vec<ConcCase> {
     let mut v = vec![];
-    let (big, rounds, calls) = if thorough { (1_000_000, 40, 20_000) } else { (200_000, 12, 2_000) };
+    let (big, rounds, calls) = if thorough { (1_000_000, 40, 20_000) } else { (400_000, 16, 2_000) };
     // whole-list built-ins (copy / scan everything) get fewer calls and a smaller shared list
     let heavy = |f: &str| matches!(f, "op_concat" | "op_for" | "op_join");
     for (f, b, _) in OPS_U64 {
@@ -205,8 +205,9 @@ where
                     std::thread::yield_now();
                 }
                 let mut k = 0u64;
-                // read-only functions under a holder: until it is done (bounded); always at least `calls` calls
-                while k < calls || (!*mutating && !done.load(Ordering::SeqCst) && k < 50_000_000) {
+                // under a holder: until it is done (bounded); always at least `calls` calls
+                // (`push` stops after `calls` calls so that the list stays bounded)
+                while k < calls || (name != "op_push" && !done.load(Ordering::SeqCst) && k < 50_000_000) {
                     let a = (k * 7 + t) % 64;
                     let r = f.call(list.clone(), a, a + 1);
                     if name == "op_push" {
